@@ -24,20 +24,30 @@ theorem msl_exporter_shape_as_modelled :
   decide
 
 /-- `generate_intrinsic_op`'s table for Metal (re-extracted on every run): every typed operator is mapped to the syntax
-operator whose C meaning is the RSSL meaning of the typed operator; `%` alone looks at its operand type and becomes
-`metal::fmod` for floating-point operands; the helper / mesh forms have no meaning in the scalar subset. -/
+operator whose C meaning is the RSSL meaning of the typed operator; `%` and `%=` alone look at their operand type: `%`
+becomes `metal::fmod` for floating-point operands, and `%=` on a floating-point target (Metal has neither operator for
+floats; fixes 92d66eb + 35faaaa) is generated as the assignment `a = a % b` — through the very rows of this table for `=`
+and `%` — or refused with `ComplexRemainderAssignment`, and stays `%=` otherwise; the helper / mesh forms have no meaning in
+the scalar subset. -/
 theorem msl_op_table_is_identity :
     (∀ o u, mslOpForm o = .unary u → astUnSem u = irOpSem o) ∧
     (∀ o b, mslOpForm o = .binary b → astBinSem b = irOpSem o) ∧
     (∀ o n s b, mslOpForm o = .floatCall n s b → o = .Modulus ∧ n = "fmod" ∧ astBinSem b = irOpSem o ∧
         s = ["Float16", "Float32", "Float64", "FloatLiteral"]) ∧
+    (∀ o s err outer inner b, mslOpForm o = .floatAssign s err outer inner b →
+        o = .RemainderAssignment ∧ astBinSem b = irOpSem o ∧ irOpSem o = .compound .mod ∧
+        irOpSem outer = .assign ∧ irOpSem inner = .bin .mod ∧ s = ["Float16", "Float32", "Float64"] ∧
+        err = "ComplexRemainderAssignment") ∧
     (∀ o, (mslOpForm o = .special ∨ mslOpForm o = .meshMethod ∨ mslOpForm o = .meshHelper) → irOpSem o = .unsupported) := by
-  refine ⟨?_, ?_, ?_, ?_⟩
+  refine ⟨?_, ?_, ?_, ?_, ?_⟩
   · intro o u h; cases o <;> simp [mslOpForm] at h <;> subst h <;> rfl
   · intro o b h; cases o <;> simp [mslOpForm] at h <;> subst h <;> rfl
   · intro o n s b h; cases o <;> simp [mslOpForm] at h
     obtain ⟨rfl, rfl, rfl⟩ := h
     exact ⟨rfl, rfl, rfl, rfl⟩
+  · intro o s err outer inner b h; cases o <;> simp [mslOpForm] at h
+    obtain ⟨rfl, rfl, rfl, rfl, rfl⟩ := h
+    exact ⟨rfl, rfl, rfl, rfl, rfl, rfl, rfl⟩
   · intro o h; cases o <;> simp [mslOpForm] at h <;> rfl
 
 /-- the Metal literal function has the same arms, in the same order, as the HLSL one (`Gen.HlslGenTables.literalArms`),
@@ -106,7 +116,9 @@ copy-out around the typed function (discharged for whole programs by `gen_sem_pr
 which is what every context the exporter places it in does — evaluates to exactly the IR's value and store, from every
 store, for every interpretation of the primitives.  All expression forms of the model: typed constants, locals,
 statics (reference parameters in Metal), unary / binary / assignment / increment operators incl. `%` on floats
-(`metal::fmod`), `?:`, `Sequence`, casts, calls of user functions with in/out/inout arguments and appended statics. -/
+(`metal::fmod`) and `%=` on floats (`x = metal::fmod(x, y)`, fixes 92d66eb + 35faaaa: whenever the exporter emits it its own
+guard — plain target, right operand free of writes — is what the proof needs), `?:`, `Sequence`, casts, calls of user
+functions with in/out/inout arguments and appended statics. -/
 theorem gen_sem_expr {W : World} {M : Msl.MWorld} {env : Ast.Env} {cx : Ctx} {vis : Var → Bool} {rsv : Nat → List Var}
     (hag : AgreeM cx vis env) (hw : Worlds cx rsv W M) (e : Ir.Expr) (a : HlslAst.Expr) (t : Ty)
     (hg : genExpr cx e = .ok a) (ht : Ir.typeOf W.sig cx.vty e = some t) (hok : Ir.okM (side cx W vis rsv) e = true) :
@@ -422,6 +434,30 @@ example (b' : HlslAst.Stmts) (h : genStmts cxW fExM.body = .ok b') (fuel : Nat) 
 /-- floating-point `%` becomes `metal::fmod`, and is covered -/
 example : genExpr { cxW with vty := fun _ => .float } (.op .Modulus (.cons (.var 0) (.cons (.var 1) .nil))) =
     .ok (.call "metal::fmod" (.cons (.ident "l") (.cons (.ident "ll") .nil))) := by rfl
+
+/-- **`x %= y` on floats** (fixes 92d66eb + 35faaaa; known finding *metal-remainder-operator-on-floats* before: the operator
+was emitted although Metal has none — and the Metal reading `Spec.SemMsl` of this development was lenient about it, which it
+no longer is): the exporter writes `x = metal::fmod(x, y)` when the target is a plain place and the right operand is free of
+writes — the emitted form reads `x` BEFORE `y` is evaluated, `%=` after, so `x %= (x = y)` and `g %= h()` (a call may write
+`g`) are refused with `ComplexRemainderAssignment` (35faaaa; the first version of the fix reordered them) —; `gen_sem_expr`
+covers the emitted form with no side condition beyond the exporter's own guard (`Lemmas.GenMsl.sim_remAssignM`,
+`freeOfWrites_pure`); on integers `%=` stays `%=`. -/
+theorem float_remainder_assignment_exported :
+    genExpr { cxW with vty := fun _ => .float } (.op .RemainderAssignment (.cons (.var 0) (.cons (.var 1) .nil))) =
+      .ok (.bin .Assignment (.ident "l") (.call "metal::fmod" (.cons (.ident "l") (.cons (.ident "ll") .nil)))) ∧
+    genExpr { cxW with vty := fun _ => .float } (.op .RemainderAssignment (.cons (.global 0)
+      (.cons (.op .Add (.cons (.var 1) (.cons (.tern (.var 2) (.var 0) (.global 0)) .nil))) .nil))) =
+      .ok (.bin .Assignment (.ident "g") (.call "metal::fmod" (.cons (.ident "g")
+        (.cons (.bin .Add (.ident "ll") (.tern (.ident "lll") (.ident "l") (.ident "g"))) .nil)))) ∧
+    genExpr { cxW with vty := fun _ => .float } (.op .RemainderAssignment (.cons (.var 0)
+      (.cons (.op .Assignment (.cons (.var 0) (.cons (.var 1) .nil))) .nil))) = .error (.diag "ComplexRemainderAssignment") ∧
+    genExpr { cxW with vty := fun _ => .float } (.op .RemainderAssignment (.cons (.global 0) (.cons (.call 1 .nil) .nil))) =
+      .error (.diag "ComplexRemainderAssignment") ∧
+    genExpr { cxW with vty := fun _ => .float } (.op .RemainderAssignment (.cons (.tern (.var 2) (.var 0) (.var 1)) (.cons (.var 1) .nil))) =
+      .error (.diag "ComplexRemainderAssignment") ∧
+    genExpr cxW (.op .RemainderAssignment (.cons (.var 0) (.cons (.call 1 .nil) .nil))) =
+      .ok (.bin .RemainderAssignment (.ident "l") (.call "ZZ" .nil)) :=
+  ⟨rfl, rfl, rfl, rfl, rfl, rfl⟩
 
 /-! ### non-vacuity of `gen_sem_program`: the aliasing program of seeded mutant C02-2
 
